@@ -145,13 +145,37 @@ func strFind(L *LState) int {
 
 func strFormat(L *LState) int {
 	str := L.CheckString(1)
-	args := make([]interface{}, L.GetTop()-1)
 	top := L.GetTop()
-	for i := 2; i <= top; i++ {
-		args[i-2] = L.Get(i)
+	args := make([]interface{}, 0, top)
+	// pair every conversion specification with its argument ("%%" takes
+	// none, surplus arguments are ignored)
+	narg := 1
+	for i := 0; i < len(str); i++ {
+		if str[i] != '%' {
+			continue
+		}
+		i++
+		if i < len(str) && str[i] == '%' {
+			continue
+		}
+		for i < len(str) && strings.IndexByte("-+ #0123456789.", str[i]) >= 0 {
+			i++ // flags, width, precision
+		}
+		if i >= len(str) {
+			break
+		}
+		narg++
+		switch str[i] {
+		case 'c', 'd', 'i', 'o', 'u', 'x', 'X', 'e', 'E', 'f', 'g', 'G':
+			// numeric conversions take a number or a string convertible to a number
+			args = append(args, L.CheckNumber(narg))
+		default:
+			if narg <= top {
+				args = append(args, L.Get(narg))
+			}
+		}
 	}
-	npat := strings.Count(str, "%") - strings.Count(str, "%%")
-	L.Push(LString(fmt.Sprintf(str, args[:intMin(npat, len(args))]...)))
+	L.Push(LString(fmt.Sprintf(str, args...)))
 	return 1
 }
 
